@@ -11,7 +11,9 @@ Scheduling of concurrent clients: every round trip parks on the server's pending
   * mode "choose": released one at a time whenever the loop has nothing else ready; when
     several clients have a round trip pending, `chooser(n)` (a solver-enumerated selector)
     picks whose command the server applies next - every interleaving at command granularity.
-Commands take zero virtual time in both modes; `latency` (a callable) may add virtual time.
+Commands take zero virtual time in both modes; `latency` (a callable) may add virtual time.  A round trip has two legs: the
+command travels, the server applies it, the reply travels back (one loop turn, or half the latency each way) - a caller that is
+cancelled on the way back has had its command executed.
 """
 from __future__ import annotations
 
@@ -65,12 +67,15 @@ class Hash(dict):
 
 
 class FakeServer:
-    def __init__(self, mode="immediate", chooser=None, latency=None, clock=None):
+    def __init__(self, mode="immediate", chooser=None, latency=None, clock=None, reply_leg=True):
         self.kv = {}           # key(str) -> bytes | list[bytes] | dict (hash) | ZSet
         self.expiry = {}       # key -> unix seconds (int | SNum)
         self.mode = mode
         self.chooser = chooser
         self.latency = latency
+        # True: a round trip has two legs - the command travels (half the latency), the server applies it, the reply travels
+        # back (the other half; one loop turn without latency).  A caller cancelled on the way back has had its command executed.
+        self.reply_leg = reply_leg
         self.clock = clock     # callable returning unix seconds (number) for key expiry
         self.pending = []      # (client, future)
         self.log = []          # applied commands: (client name, [(cmd, args)])
@@ -114,7 +119,7 @@ class FakeServer:
         if self.latency is not None:
             d = self.latency(client)
             if d is not None:
-                await asyncio.sleep(d)
+                await asyncio.sleep(d / 2 if self.reply_leg else d)
         if self.mode == "choose":
             loop = asyncio.get_running_loop()
             self.attach(loop)
@@ -123,6 +128,13 @@ class FakeServer:
             await fut
         else:
             await asyncio.sleep(0)
+
+    async def reply(self, client):
+        """The way back of a round trip (after the server has applied the command)."""
+        if not self.reply_leg:
+            return
+        d = self.latency(client) if self.latency is not None else None
+        await asyncio.sleep(d / 2 if d is not None else 0)
 
     # -- data helpers -----------------------------------------------------------------
     def _alive(self, k):
@@ -399,6 +411,7 @@ class Pipeline:
         cmds, self.q = self.q, []
         out = [getattr(srv, n)(*a, **k) for n, a, k in cmds]
         srv.log.append((self.client.name, [(n, a) for n, a, _ in cmds]))
+        await srv.reply(self.client)
         return out
 
 
@@ -422,6 +435,7 @@ class FakeRedis:
             await self.server.round_trip(self)
             r = getattr(self.server, name)(*a, **k)
             self.server.log.append((self.name, [(name, a)]))
+            await self.server.reply(self)
             return r
 
         return call
